@@ -212,4 +212,29 @@ Proof.
     cbn [orb] in Hs. apply N.eqb_eq in Hs. rewrite Hs in EC. rewrite L1, U1 in EC. discriminate EC.
 Qed.
 
+(* every character of the synthesised identifier satisfies any predicate that holds of the kept
+   characters, of their upper-case images, of the capitalisation entries and of the fixed words *)
+Theorem identifierize_chars (Q : N -> bool) caps s :
+  (forall r, good r = true -> keeps r = true -> Q r = true /\ Q (u_to_upper U r) = true) ->
+  Forall (fun c => forallb Q c = true) caps ->
+  forallb Q s_Blank = true -> forallb Q s_Wildcard = true -> forallb Q s_Undefined = true -> Q c_A = true ->
+  forallb good s = true -> forallb Q (identifierize U caps s) = true.
+Proof.
+  intros HQ Hcaps HB HW HU HA Hg.
+  unfold identifierize. destruct (str_eqb s []); [assumption|]. destruct (str_eqb s [42%N]); [assumption|].
+  unfold ident_body.
+  assert (Hall : forallb Q (flat_map (capitalize U caps) (split_ident s)) = true).
+  { rewrite forallb_flat_map. pose proof (parts_good s Hg) as HP.
+    apply forallb_forall. intros p Hp. rewrite forallb_forall in HP. specialize (HP p Hp).
+    apply andb_true_iff in HP. destruct HP as [Hgp Hkp].
+    unfold capitalize. destruct p as [|r rest]; [reflexivity|].
+    destruct (find (fun c => equal_fold U c (r :: rest)) caps) as [c|] eqn:F.
+    - apply find_some in F. destruct F as [Hin _]. rewrite Forall_forall in Hcaps. apply Hcaps; exact Hin.
+    - cbn [forallb] in *. apply andb_true_iff in Hgp. apply andb_true_iff in Hkp. destruct Hgp as [G1 G2], Hkp as [K1 K2].
+      apply andb_true_iff. split; [apply (HQ r G1 K1)|].
+      apply forallb_forall. intros x Hx. rewrite forallb_forall in G2, K2. apply (HQ x (G2 x Hx) (K2 x Hx)). }
+  destruct (flat_map (capitalize U caps) (split_ident s)) as [|r0 rest]; [assumption|].
+  destruct (negb (u_letter U r0) || not_case_sensitive U r0); [cbn [forallb]; rewrite HA; exact Hall|exact Hall].
+Qed.
+
 End IdentP.
